@@ -48,6 +48,12 @@ type Script struct {
 	// NoStandalone: the client transport is configured with DisableStandaloneSSE (it must still resume the
 	// response streams of its calls).
 	NoStandalone bool `json:"no_standalone,omitempty"`
+	// IDOnly: how an event that carries nothing but an id (the priming event, checkpoints) is written:
+	// "" = `event: prime` + id + empty data line; "unnamed" = id + empty data line; "bare" = the id line alone.
+	IDOnly string `json:"id_only,omitempty"`
+	// Checkpoints: after these progress notifications (0 = before the first) the server writes an id-only
+	// event: a resumption point that carries no message.
+	Checkpoints []int `json:"checkpoints,omitempty"`
 }
 
 func genScript(rt *rapid.T) Script {
@@ -63,6 +69,10 @@ func genScript(rt *rapid.T) Script {
 	s.NoStandalone = rapid.IntRange(0, 2).Draw(rt, "no_standalone") == 0
 	if s.IDs {
 		s.Priming = rapid.Bool().Draw(rt, "priming")
+		s.IDOnly = rapid.SampledFrom([]string{"", "", "unnamed", "bare"}).Draw(rt, "id_only")
+		if rapid.IntRange(0, 2).Draw(rt, "checkpoints") == 0 {
+			s.Checkpoints = rapid.SliceOfNDistinct(rapid.IntRange(0, s.N), 1, 2, rapid.ID[int]).Draw(rt, "checkpoint_at")
+		}
 	}
 	if rapid.IntRange(0, 2).Draw(rt, "chunked") == 0 {
 		s.Chunks = rapid.SliceOfN(rapid.IntRange(1, 120), 1, 6).Draw(rt, "chunks")
@@ -99,9 +109,23 @@ func (s Script) events(callID string) []event {
 	if s.Priming {
 		evs = append(evs, event{id: nextID()})
 	}
+	checkpoint := func(after int) {
+		for _, c := range s.Checkpoints {
+			if c == after && s.IDs {
+				evs = append(evs, event{id: nextID()})
+			}
+		}
+	}
+	checkpoint(0)
 	for i := 1; i <= s.N; i++ {
+		if i > 1 {
+			checkpoint(i - 1)
+		}
 		evs = append(evs, event{id: nextID(), seq: i,
 			data: fmt.Sprintf(`{"jsonrpc":"2.0","method":"notifications/progress","params":{"progressToken":"tok","progress":%d,"message":"m%d"}}`, i, i)})
+	}
+	if s.N > 0 {
+		checkpoint(s.N)
 	}
 	evs = append(evs, event{id: nextID(), seq: -1,
 		data: fmt.Sprintf(`{"jsonrpc":"2.0","id":%s,"result":{"content":[{"type":"text","text":"the real answer"}]}}`, callID)})
@@ -118,6 +142,18 @@ func (s Script) encode(evs []event, first bool) string {
 		name := "message"
 		if e.data == "" {
 			name = "prime"
+			if s.IDOnly != "" {
+				name = ""
+			}
+			if s.IDOnly == "bare" {
+				// the id line alone (and the retry hint, if this is where it goes)
+				b.WriteString("id: " + e.id + "\n")
+				if retry != "" {
+					b.WriteString("retry: " + retry + "\n")
+				}
+				b.WriteString("\n")
+				continue
+			}
 		}
 		b.WriteString(memhttp.FormatSSE(name, e.id, retry, e.data))
 	}
@@ -610,7 +646,7 @@ func finish(res vt.Result, s Script, truncated bool, gets, netErrs int) vt.Resul
 	for _, r := range s.Reconnects {
 		kinds += r.Kind[:1] + r.CutKind
 	}
-	res.Desc = fmt.Sprintf("%d|%v|%v|%s|%v|%s|%s|%d", s.N, s.IDs, s.Priming, s.CutKind, truncated, kinds, s.Then, s.CutAt%97)
+	res.Desc = fmt.Sprintf("%d|%v|%v|%s|%v|%s|%s|%d|%s%v", s.N, s.IDs, s.Priming, s.CutKind, truncated, kinds, s.Then, s.CutAt%97, s.IDOnly, s.Checkpoints)
 	if truncated {
 		res.Class("cut_inside_event")
 	}
@@ -621,6 +657,12 @@ func finish(res vt.Result, s Script, truncated bool, gets, netErrs int) vt.Resul
 		res.Class("transport_error_on_reconnect")
 	}
 	res.Class("cut_" + s.CutKind)
+	if len(s.Checkpoints) > 0 {
+		res.Class("id_only_checkpoints")
+	}
+	if s.IDs && (s.Priming || len(s.Checkpoints) > 0) {
+		res.Class("id_only_style_" + s.IDOnly)
+	}
 	if !s.IDs {
 		res.Class("no_event_ids")
 	}
